@@ -681,7 +681,7 @@ class QuicConnection:
         Return the time at which the timer should fire or None if no timer is needed.
         """
         timer_at = self._close_at
-        if self._state not in END_STATES:
+        if timer_at is not None and self._state not in END_STATES:
             # ack timer
             for space in self._loss.spaces:
                 if space.ack_at is not None and space.ack_at < timer_at:
@@ -706,6 +706,10 @@ class QuicConnection:
 
         :param now: The current time.
         """
+        # no deadline is armed before the connection starts or once it has terminated
+        if self._close_at is None:
+            return
+
         # end of closing period or idle timeout
         if now >= self._close_at:
             if self._close_event is None:
